@@ -155,6 +155,7 @@ inline std::string gen_scenario(const unsigned char *data, size_t size, const st
       if (kind == "getaddrinfo" || kind == "gethostbyname" || kind == "gethostbyaddr" || kind == "getnameinfo") { static const char *fam[] = {"INET", "INET6", "UNSPEC", "INET"}; unsigned fi = c.pick(4); if (kind != "getaddrinfo" && kind != "gethostbyname" && fi == 2) fi = 0; o += std::string(" ") + fam[fi]; if (kind == "getaddrinfo") { unsigned fl = 0; if (c.chance(1, 3)) fl |= ARES_AI_CANONNAME; if (c.chance(1, 3)) fl |= ARES_AI_NOSORT; if (c.chance(1, 6)) fl |= ARES_AI_ENVHOSTS; if (fl) o += " flags=" + std::to_string(fl); if (c.chance(1, 3)) o += " port=" + std::to_string(1 + c.pick(65535)); } }
       else if (prop == "C08") { static const char *qt[] = {"A", "A", "AAAA", "TXT", "A", "99", "100", "A", "A", "A"}; o += std::string(" ") + qt[c.pick(10)]; }
       else { static const char *qt[] = {"A", "A", "AAAA", "TXT", "A"}; o += std::string(" ") + qt[c.pick(5)]; }
+      if (prop == "C08" && c.chance(1, 4)) o += std::string(" cb=") + (c.chance(1, 2) ? "again" : "slowagain");
       if (pf.callbacks && c.chance(1, 3)) { static const char *sc[] = {"new", "cancel", "newcancel", "cancelnew", "new2", "newsearch", "newgai", "slownew"}; o += std::string(" cb=") + sc[c.pick(8)]; }
       o += "\n";
       if (inject_now) { static const char *ik[] = {"wrongid", "wrongname", "wrongtype", "wrongclass", "wrongcase", "wrongsrc", "wrongsock", "late", "nocookie", "badclientcookie"}; if (c.chance(1, 3)) o += "adv timeout\nstep\n"; o += std::string("inject ") + ik[c.pick(10)] + " " + std::to_string(id) + "\n"; if (c.chance(1, 2)) o += "step\n"; }
